@@ -120,112 +120,31 @@ theorem covers_add {t a x : Value} (h : Covers t a) (ha : Value.WF a) (hx : Valu
   · have := h.1; have := nx.1; simp only [Value.add]; omega
   · rw [qty_add _ _ _ _ ha hx]; have := h.2 p n; have := nx.2 p n; omega
 
+/-- the sum of a list of UTxOs is non-negative in ADA and in every asset -/
+def NonNegSum (l : List UTxO) : Prop := 0 ≤ sumBy coinOf l ∧ ∀ p n, 0 ≤ sumBy (qtyOf p n) l
+
+theorem nonNegSum_nil : NonNegSum [] := ⟨by simp, fun p n => by simp⟩
+
+theorem nonNegSum_of_nonneg {l : List UTxO} (h : ∀ u ∈ l, NonNegV u.amount) : NonNegSum l :=
+  ⟨sumBy_nonneg _ _ (fun u hu => (h u hu).1), fun p n => sumBy_nonneg _ _ (fun u hu => (h u hu).2 p n)⟩
+
 theorem covers_of_isSum_append {sel l : List UTxO} {a b : Value} (ha : IsSum sel a) (hb : IsSum (sel ++ l) b)
-    (hl : ∀ u ∈ l, NonNegV u.amount) : Covers a b := by
+    (hl : NonNegSum l) : Covers a b := by
   refine ⟨?_, fun p n => ?_⟩
   · rw [ha.2.1, hb.2.1, sumBy_append]
-    have := sumBy_nonneg coinOf l (fun u hu => (hl u hu).1); omega
+    have := hl.1; omega
   · rw [ha.2.2, hb.2.2, sumBy_append]
-    have := sumBy_nonneg (qtyOf p n) l (fun u hu => (hl u hu).2 p n); omega
+    have := hl.2 p n; omega
 
-/-! ## `Value.__le__` versus the component-wise order -/
+/-! ## `Value.__le__` is the component-wise order (`Value.le_iff`, C05): no hypothesis on either operand -/
 
-open Dict in
-theorem asset_le_sound (a b : Asset) (ha : Dict.WF a) (nb : ∀ n, 0 ≤ Asset.qty b n) (h : Asset.le a b = true) :
-    ∀ n, Asset.qty a n ≤ Asset.qty b n := by
-  unfold Asset.le at h
-  simp only [List.all_eq_true, Bool.and_eq_true, decide_eq_true_eq] at h
-  intro n
-  cases hh : has a n with
-  | true =>
-    have hm : (n, getD a n 0) ∈ a := (mem_iff_getD a n _ 0 ha).2 ⟨hh, rfl⟩
-    exact (h _ hm).2
-  | false =>
-    simp only [Asset.qty, has_false_getD _ _ _ hh]
-    exact nb n
+theorem le_iff_covers (t a : Value) : Value.le t a = true ↔ Covers t a := Value.le_iff t a
 
-open Dict in
-theorem ma_le_sound (a b : MultiAsset) (ha : MultiAsset.WF a) (nb : ∀ p n, 0 ≤ MultiAsset.qty b p n)
-    (h : MultiAsset.le a b = true) : ∀ p n, MultiAsset.qty a p n ≤ MultiAsset.qty b p n := by
-  unfold MultiAsset.le at h
-  simp only [List.all_eq_true, Bool.and_eq_true] at h
-  intro p n
-  cases hh : has a p with
-  | true =>
-    have hm := MultiAsset.mem_getD a p ha hh
-    have h2 := h _ hm
-    exact asset_le_sound _ _ (ha.2 _ hm) (fun k => nb p k) h2.2 n
-  | false => rw [MultiAsset.qty_of_not_has _ _ _ hh]; exact nb p n
+/-- `t <= a` (Python) implies component-wise coverage -/
+theorem le_sound {t a : Value} (h : Value.le t a = true) : Covers t a := (Value.le_iff t a).1 h
 
-/-- `t <= a` (Python) implies component-wise coverage when `a` holds no negative quantity -/
-theorem le_sound {t a : Value} (ht : Value.WF t) (na : NonNegV a) (h : Value.le t a = true) : Covers t a := by
-  unfold Value.le at h
-  simp only [Bool.and_eq_true, decide_eq_true_eq] at h
-  exact ⟨h.1, ma_le_sound _ _ ht na.2 h.2⟩
-
-open Dict in
-theorem asset_le_complete (a b : Asset) (ha : Dict.WF a) (pa : ∀ q ∈ a, 0 < q.2)
-    (h : ∀ n, Asset.qty a n ≤ Asset.qty b n) : Asset.le a b = true := by
-  unfold Asset.le
-  simp only [List.all_eq_true, Bool.and_eq_true, decide_eq_true_eq]
-  intro q hq
-  obtain ⟨k, v⟩ := q
-  have hq' : Asset.qty a k = v := ((mem_iff_getD a k v 0 ha).1 hq).2
-  have hv : 0 < v := pa _ hq
-  have hk := h k
-  rw [hq'] at hk
-  refine ⟨Asset.has_of_qty_ne b k (by omega), ?_⟩
-  simpa [Asset.qty] using hk
-
-open Dict in
-theorem ma_le_complete (a b : MultiAsset) (ha : MultiAsset.WF a) (pa : MultiAsset.Pos a)
-    (h : ∀ p n, MultiAsset.qty a p n ≤ MultiAsset.qty b p n) : MultiAsset.le a b = true := by
-  unfold MultiAsset.le
-  simp only [List.all_eq_true, Bool.and_eq_true]
-  intro q hq
-  obtain ⟨k, x⟩ := q
-  have hk := MultiAsset.getD_of_mem a k x ha hq
-  have hpos := pa _ hq
-  simp only at hpos
-  have hbk : has b k = true := by
-    cases hx : x with
-    | nil => exact absurd hx hpos.1
-    | cons q0 r =>
-      have h1 : MultiAsset.qty a k q0.1 = q0.2 := by simp [MultiAsset.qty, hk.2, hx, Asset.qty, getD]
-      have h2 : 0 < q0.2 := hpos.2 q0 (by rw [hx]; simp)
-      have h3 := h k q0.1
-      cases hf : has b k with
-      | true => rfl
-      | false => rw [MultiAsset.qty_of_not_has _ _ _ hf] at h3; omega
-  refine ⟨hbk, ?_⟩
-  apply asset_le_complete _ _ (ha.2 _ hq) hpos.2
-  intro n
-  have := h k n
-  simp only [MultiAsset.qty, hk.2] at this
-  exact this
-
-/-- component-wise coverage implies `t <= a` (Python) when `t` stores only positive quantities -/
-theorem le_complete {t a : Value} (ht : Value.WF t) (pt : MultiAsset.Pos t.ma) (h : Covers t a) :
-    Value.le t a = true := by
-  unfold Value.le
-  simp only [Bool.and_eq_true, decide_eq_true_eq]
-  exact ⟨h.1, ma_le_complete _ _ ht pt h.2⟩
-
-open Dict in
-/-- a normal legal dict with non-negative content stores only positive quantities -/
-theorem pos_of_normal (m : MultiAsset) (hw : MultiAsset.WF m) (hn : MultiAsset.Normal m)
-    (h : ∀ p n, 0 ≤ MultiAsset.qty m p n) : MultiAsset.Pos m := by
-  intro q hq
-  obtain ⟨k, x⟩ := q
-  have hk := MultiAsset.getD_of_mem m k x hw hq
-  refine ⟨(hn _ hq).1, fun e he => ?_⟩
-  obtain ⟨n, v⟩ := e
-  have hv : Asset.qty x n = v := ((mem_iff_getD x n v 0 (hw.2 _ hq)).1 he).2
-  have h0 : v ≠ 0 := (hn _ hq).2 _ he
-  have := h k n
-  simp only [MultiAsset.qty, hk.2, hv] at this
-  simp only
-  omega
+/-- component-wise coverage implies `t <= a` (Python) -/
+theorem le_complete {t a : Value} (h : Covers t a) : Value.le t a = true := (Value.le_iff t a).2 h
 
 /-! ## the request -/
 
@@ -307,15 +226,16 @@ structure Good (nn : Prop) (pool : List UTxO) (total : Value) (sel : List UTxO) 
   changeCoin : change.coin = sumBy coinOf sel - total.coin
   changeQty : ∀ p n, Value.qty change p n = sumBy (qtyOf p n) sel - Value.qty total p n
 
-/-- first-phase result `sel1` (covering) plus a top-up `sel2` taken from what was left -/
+/-- first-phase result `sel1` (covering) plus a top-up `sel2` taken from what was left, whose sum is non-negative -/
 theorem good_topup {nn : Prop} {pool rem1 sel1 : List UTxO} {amt1 total : Value} (h1 : Inv pool rem1 sel1 amt1)
-    (hc : CoversIf nn total amt1) (hp : PoolN nn pool) (ht : Value.WF total)
-    {sel2 : List UTxO} (hn2 : (sel2.map UTxO.ref).Nodup) (hs2 : ∀ u ∈ sel2, u ∈ rem1) :
+    (hc : CoversIf nn total amt1) (hp : ∀ u ∈ pool, Value.WF u.amount) (ht : Value.WF total)
+    {sel2 : List UTxO} (hn2 : (sel2.map UTxO.ref).Nodup) (hs2 : ∀ u ∈ sel2, u ∈ rem1)
+    (h2 : nn → NonNegSum sel2) :
     Good nn pool total (sel1 ++ sel2) (Value.sub (addAll amt1 sel2) total) := by
   have hin : ∀ u ∈ sel2, u ∈ pool := fun u hu => h1.sub u (List.mem_append_right _ (hs2 u hu))
-  have hsum := isSum_addAll sel2 h1.sum (fun u hu => (hp u (hin u hu)).1)
+  have hsum := isSum_addAll sel2 h1.sum (fun u hu => hp u (hin u hu))
   have hcov : CoversIf nn total (addAll amt1 sel2) := fun hnn =>
-    (hc hnn).trans (covers_of_isSum_append h1.sum hsum (fun u hu => (hp u (hin u hu)).2 hnn))
+    (hc hnn).trans (covers_of_isSum_append h1.sum hsum (h2 hnn))
   have hnd := h1.nodup
   rw [List.map_append, List.nodup_append] at hnd
   refine ⟨?_, ?_, ?_, ?_, ?_, ?_⟩
@@ -334,9 +254,9 @@ theorem good_topup {nn : Prop} {pool rem1 sel1 : List UTxO} {amt1 total : Value}
   · intro p n; rw [qty_sub _ _ _ _ hsum.1 ht, hsum.2.2]
 
 theorem good_plain {nn : Prop} {pool rem1 sel1 : List UTxO} {amt1 total : Value} (h1 : Inv pool rem1 sel1 amt1)
-    (hc : CoversIf nn total amt1) (hp : PoolN nn pool) (ht : Value.WF total) :
+    (hc : CoversIf nn total amt1) (hp : ∀ u ∈ pool, Value.WF u.amount) (ht : Value.WF total) :
     Good nn pool total sel1 (Value.sub amt1 total) := by
-  have := good_topup h1 hc hp ht (sel2 := []) (by simp) (by simp)
+  have := good_topup h1 hc hp ht (sel2 := []) (by simp) (by simp) (fun _ => nonNegSum_nil)
   simpa [addAll] using this
 
 /-! ## LargestFirstSelector -/
@@ -450,18 +370,21 @@ theorem lfBase_inv {pool : List UTxO} (hp : ∀ u ∈ pool, Value.WF u.amount) (
   simp only [List.nil_append] at h3
   rw [h3, ← h4]; exact hperm
 
-theorem lfBase_ok {nn : Prop} {pool : List UTxO} (hp : PoolN nn pool) (hn : (pool.map UTxO.ref).Nodup) (fee : Int)
-    (outputs : List Output) (ho : ∀ o ∈ outputs, Value.WF o.amount) (limit : Option Int) (s : LfState)
+/-- the first phase of largest-first ends only when `total_requested <= selected_amount`, which is component-wise
+coverage whatever the pool holds -/
+theorem lfBase_ok {pool : List UTxO} (hp : ∀ u ∈ pool, Value.WF u.amount) (hn : (pool.map UTxO.ref).Nodup) (fee : Int)
+    (outputs : List Output) (limit : Option Int) (s : LfState)
     (h : lfBase fee pool outputs limit = .ok s) :
-    Inv pool s.avail s.sel s.amt ∧ CoversIf nn (requestSum fee outputs) s.amt ∧
+    Inv pool s.avail s.sel s.amt ∧ Covers (requestSum fee outputs) s.amt ∧
       (s.sel ++ s.avail).Perm pool := by
-  obtain ⟨h1, h2, h3⟩ := lfBase_inv (fun u hu => (hp u hu).1) hn fee outputs limit s h
-  exact ⟨h1, fun hnn => le_sound (requestSum_spec fee outputs ho).1 (h1.nonneg hp hnn) h2, h3⟩
+  obtain ⟨h1, h2, h3⟩ := lfBase_inv hp hn fee outputs limit s h
+  exact ⟨h1, le_sound h2, h3⟩
 
 theorem requestSum_topUp (env : Env) (x : Int) : requestSum 0 [topUpOutput env x] = ⟨0 + x, []⟩ := rfl
 
-theorem le_coinOnly (x : Int) (a : Value) : Value.le ⟨x, []⟩ a = decide (x ≤ a.coin) := by
-  simp [Value.le, MultiAsset.le]
+/-- covering an ADA-only request: enough ADA, and no negative quantity of any asset -/
+theorem covers_coinOnly (x : Int) (a : Value) : Covers ⟨x, []⟩ a ↔ x ≤ a.coin ∧ ∀ p n, 0 ≤ Value.qty a p n := by
+  simp only [Covers, qty_coinOnly]
 
 theorem wf_topUp (env : Env) (x : Int) : ∀ o ∈ [topUpOutput env x], Value.WF o.amount := by
   intro o ho
@@ -469,12 +392,14 @@ theorem wf_topUp (env : Env) (x : Int) : ∀ o ∈ [topUpOutput env x], Value.WF
   subst ho
   exact MultiAsset.wf_nil
 
-/-- `LargestFirstSelector.select` returns a covering sub-multiset of the pool and the exact change -/
-theorem lfSelect_ok {nn : Prop} {pool : List UTxO} (hp : PoolN nn pool) (hn : (pool.map UTxO.ref).Nodup) (env : Env)
+/-- `LargestFirstSelector.select` returns a covering sub-multiset of the pool and the exact change — coverage
+included for every pool of legal dicts: both loops end on the component-wise `<=`, and the top-up's `<=` against an
+ADA-only request also demands that the inputs it adds hold no net negative quantity -/
+theorem lfSelect_ok {pool : List UTxO} (hp : ∀ u ∈ pool, Value.WF u.amount) (hn : (pool.map UTxO.ref).Nodup) (env : Env)
     (outputs : List Output) (ho : ∀ o ∈ outputs, Value.WF o.amount) (limit : Option Int)
     (includeFee respectMin : Bool) (sel : List UTxO) (change : Value)
     (h : lfSelect env pool outputs limit includeFee respectMin = .ok (sel, change)) :
-    ∃ f, feeOf env includeFee = some f ∧ Good nn pool (requestSum f outputs) sel change := by
+    ∃ f, feeOf env includeFee = some f ∧ Good True pool (requestSum f outputs) sel change := by
   unfold lfSelect at h
   cases hf : feeOf env includeFee with
   | none => simp [hf] at h
@@ -486,14 +411,17 @@ theorem lfSelect_ok {nn : Prop} {pool : List UTxO} (hp : PoolN nn pool) (hn : (p
     | error e => simp [hb] at h
     | ok s =>
       simp only [hb] at h
-      obtain ⟨hinv, hcov, _⟩ := lfBase_ok hp hn f outputs ho limit s hb
+      obtain ⟨hinv, hcov0, _⟩ := lfBase_ok hp hn f outputs limit s hb
+      have hcov : CoversIf True (requestSum f outputs) s.amt := fun _ => hcov0
       split at h
       · split at h
         · cases h
-        · split at h
-          · split at h
+        · next mc hmc =>
+          split at h
+          · next hlt =>
+            split at h
             · cases h
-            · next mc _ s2 hb2 =>
+            · next s2 hb2 =>
               cases h
               have hsubp : ∀ u ∈ s.avail.reverse, u ∈ pool :=
                 fun u hu => hinv.sub u (List.mem_append_right _ (List.mem_reverse.1 hu))
@@ -501,11 +429,16 @@ theorem lfSelect_ok {nn : Prop} {pool : List UTxO} (hp : PoolN nn pool) (hn : (p
               rw [List.map_append, List.nodup_append] at hnd
               have hn2 : (s.avail.reverse.map UTxO.ref).Nodup := by
                 rw [List.map_reverse]; exact (List.reverse_perm _).nodup_iff.2 hnd.2.1
-              obtain ⟨hinv2, _, _⟩ := lfBase_ok (hp.mono hsubp) hn2 0 _ (wf_topUp env _) _ s2 hb2
+              obtain ⟨hinv2, hcov2, _⟩ := lfBase_ok (fun u hu => hp u (hsubp u hu)) hn2 0 _ _ s2 hb2
+              rw [requestSum_topUp, covers_coinOnly] at hcov2
               have hnd2 := hinv2.nodup
               rw [List.map_append, List.nodup_append] at hnd2
+              have hnn2 : NonNegSum s2.sel := by
+                refine ⟨?_, fun p n => ?_⟩
+                · rw [← hinv2.sum.2.1]; have := hcov2.1; omega
+                · rw [← hinv2.sum.2.2]; exact hcov2.2 p n
               exact good_topup hinv hcov hp ht hnd2.1
-                (fun u hu => List.mem_reverse.1 (hinv2.sub u (List.mem_append_left _ hu)))
+                (fun u hu => List.mem_reverse.1 (hinv2.sub u (List.mem_append_left _ hu))) (fun _ => hnn2)
           · cases h; exact good_plain hinv hcov hp ht
       · cases h; exact good_plain hinv hcov hp ht
 
@@ -539,33 +472,11 @@ theorem lfSelect_limit (env : Env) (pool : List UTxO) (outputs : List Output) (l
           · cases h; exact h1
       · cases h; exact h1
 
-theorem sum_nonneg_list : ∀ (l : List Int), (∀ x ∈ l, 0 ≤ x) → 0 ≤ l.sum
-  | [], _ => by simp
-  | x :: r, h => by
-    have := h x (by simp)
-    have := sum_nonneg_list r (fun y hy => h y (by simp [hy]))
-    simp only [List.sum_cons]; omega
-
-/-- the requested bundle stores only positive quantities when every output holds non-negative ones -/
-theorem requestSum_pos (fee : Int) (outputs : List Output)
-    (ho : ∀ o ∈ outputs, Value.WF o.amount ∧ ∀ p n, 0 ≤ Value.qty o.amount p n) :
-    MultiAsset.Pos (requestSum fee outputs).ma := by
-  have hs := requestSum_spec fee outputs (fun o h => (ho o h).1)
-  apply pos_of_normal _ hs.1 hs.2.1
-  intro p n
-  have := hs.2.2.2 p n
-  simp only [Value.qty] at this
-  rw [this]
-  apply sum_nonneg_list
-  intro x hx
-  obtain ⟨o, hoo, rfl⟩ := List.mem_map.1 hx
-  exact (ho o hoo).2 p n
-
 /-- when largest-first reports an insufficient balance the pool cannot cover the request — or, in min-change
-mode, its ADA cannot reach request + minimum change of the first-phase selection -/
+mode, what the first phase left cannot cover the ADA-only top-up request (request + minimum change of the first-phase
+selection not reached by the pool's ADA, or a net negative quantity of some asset in what was left) -/
 theorem lfSelect_insufficient {pool : List UTxO} (hw : ∀ u ∈ pool, Value.WF u.amount)
-    (hn : (pool.map UTxO.ref).Nodup) (env : Env) (outputs : List Output)
-    (ho : ∀ o ∈ outputs, Value.WF o.amount ∧ ∀ p n, 0 ≤ Value.qty o.amount p n) (limit : Option Int)
+    (hn : (pool.map UTxO.ref).Nodup) (env : Env) (outputs : List Output) (limit : Option Int)
     (includeFee respectMin : Bool)
     (h : lfSelect env pool outputs limit includeFee respectMin = .error .insufficient) :
     ∃ f, feeOf env includeFee = some f ∧
@@ -573,14 +484,13 @@ theorem lfSelect_insufficient {pool : List UTxO} (hw : ∀ u ∈ pool, Value.WF 
           ∀ p n, Value.qty (requestSum f outputs) p n ≤ sumBy (qtyOf p n) pool) ∨
        (respectMin = true ∧ ∃ s mc, lfBase f pool outputs limit = .ok s ∧
           env.minChange (Value.sub s.amt (requestSum f outputs)) = some mc ∧
-          sumBy coinOf pool < (requestSum f outputs).coin + mc)) := by
+          ¬ ((requestSum f outputs).coin + mc ≤ sumBy coinOf pool ∧ ∀ p n, 0 ≤ sumBy (qtyOf p n) s.avail))) := by
   unfold lfSelect at h
   cases hf : feeOf env includeFee with
   | none => simp [hf] at h
   | some f =>
     simp only [hf] at h
     refine ⟨f, rfl, ?_⟩
-    have hs := requestSum_spec f outputs (fun o h => (ho o h).1)
     cases hb : lfBase f pool outputs limit with
     | error e =>
       simp only [hb] at h
@@ -595,7 +505,7 @@ theorem lfSelect_insufficient {pool : List UTxO} (hw : ∀ u ∈ pool, Value.WF 
         refine ⟨?_, fun p n => ?_⟩
         · rw [h1.2.1, List.nil_append, sumBy_perm _ hperm]; exact hc.1
         · rw [h1.2.2, List.nil_append, sumBy_perm _ hperm]; exact hc.2 p n
-      have := le_complete hs.1 (requestSum_pos f outputs ho) this
+      have := le_complete this
       rw [this] at h2; cases h2
     | ok s =>
       simp only [hb] at h
@@ -616,16 +526,21 @@ theorem lfSelect_insufficient {pool : List UTxO} (hw : ∀ u ∈ pool, Value.WF 
               obtain ⟨amt', h1, h2⟩ := lfLoop_insufficient _ _ _ _ _ hb2 isSum_nil
                 (fun u hu => hw u (hinv.sub u (List.mem_append_right _
                   (List.mem_reverse.1 (hperm2.subset hu)))))
-              rw [requestSum_topUp, le_coinOnly] at h2
-              simp only [decide_eq_false_iff_not] at h2
-              rw [h1.2.1, List.nil_append, sumBy_perm _ hperm2, sumBy_reverse] at h2
+              rw [requestSum_topUp] at h2
+              intro hc
               have e1 : sumBy coinOf pool = sumBy coinOf s.sel + sumBy coinOf s.avail := by
                 rw [← sumBy_perm coinOf hperm, sumBy_append]
               have e2 : (Value.sub s.amt (requestSum f outputs)).coin
                   = sumBy coinOf s.sel - (requestSum f outputs).coin := by
                 simp only [Value.sub]; rw [hinv.sum.2.1]
-              rw [e2] at h2
-              omega
+              have : Value.le ⟨0 + (mc - (Value.sub s.amt (requestSum f outputs)).coin), []⟩ amt' = true := by
+                apply le_complete
+                rw [covers_coinOnly]
+                refine ⟨?_, fun p n => ?_⟩
+                · rw [h1.2.1, List.nil_append, sumBy_perm _ hperm2, sumBy_reverse, e2]
+                  have := hc.1; omega
+                · rw [h1.2.2, List.nil_append, sumBy_perm _ hperm2, sumBy_reverse]; exact hc.2 p n
+              rw [this] at h2; cases h2
             · cases h
           · cases h
       · cases h
@@ -741,7 +656,7 @@ theorem subsetLoop_ok {nn : Prop} {pool : List UTxO} (hp : PoolN nn pool) (r : V
 
 theorem phase1_ok {nn : Prop} {pool : List UTxO} (hp : PoolN nn pool) (limit : Option Int) :
     ∀ (rs : List Value) (s s' : St), Inv pool s.rem s.sel s.amt → phase1 limit rs s = .ok s' →
-      Inv pool s'.rem s'.sel s'.amt ∧ CoversIf nn s.amt s'.amt ∧ ∀ r ∈ rs, Value.WF r → CoversIf nn r s'.amt := by
+      Inv pool s'.rem s'.sel s'.amt ∧ CoversIf nn s.amt s'.amt ∧ ∀ r ∈ rs, CoversIf nn r s'.amt := by
   intro rs
   induction rs with
   | nil => intro s s' hinv h; simp only [phase1] at h; cases h; exact ⟨hinv, CoversIf.refl _ _, by simp⟩
@@ -756,10 +671,10 @@ theorem phase1_ok {nn : Prop} {pool : List UTxO} (hp : PoolN nn pool) (limit : O
       · obtain ⟨a1, a2, a3⟩ := subsetLoop_ok hp r _ _ _ hinv hs1
         obtain ⟨b1, b2, b3⟩ := ih _ _ a1 h
         refine ⟨b1, a2.trans b2, ?_⟩
-        intro x hx hwx
+        intro x hx
         rcases List.mem_cons.1 hx with rfl | hx
-        · exact CoversIf.trans (fun hnn => le_sound hwx (a1.nonneg hp hnn) a3) b2
-        · exact b3 x hx hwx
+        · exact CoversIf.trans (fun _ => le_sound a3) b2
+        · exact b3 x hx
 
 theorem improveStep_next {limit : Option Int} {ideal upper : Value} {rem sel : List UTxO} {amt : Value}
     {st st' : List Nat} {i : Nat} {u : UTxO} {take : Bool}
@@ -895,15 +810,6 @@ theorem sortDesc_perm : ∀ l, (sortDesc l).Perm l
     simp only [sortDesc, List.foldr_cons]
     exact (insertDesc_perm x _).trans ((sortDesc_perm r).cons x)
 
-theorem wf_split (t : Value) : ∀ r ∈ splitByAsset t, Value.WF r := by
-  intro r hr
-  simp only [splitByAsset, List.mem_append, List.mem_flatMap, List.mem_map, List.mem_filter] at hr
-  rcases hr with hr | ⟨p, _, q, _, rfl⟩
-  · split at hr
-    · simp only [List.mem_singleton] at hr; subst hr; exact MultiAsset.wf_nil
-    · simp at hr
-  · simp [Value.WF, MultiAsset.WF, Dict.WF, Dict.keys]
-
 open Dict in
 theorem covers_of_split (t a : Value) (ht : Value.WF t) (na : NonNegV a)
     (h : ∀ r ∈ splitByAsset t, Covers r a) : Covers t a := by
@@ -946,7 +852,7 @@ theorem riBase_ok {nn : Prop} {pool : List UTxO} (hp : PoolN nn pool) (hn : (poo
     obtain ⟨b1, b2⟩ := phase2_ok hp limit _ _ _ a1 h
     refine ⟨b1, fun hnn => covers_of_split _ _ (requestSum_spec fee outputs ho).1 (b1.nonneg hp hnn) ?_⟩
     intro r hr
-    exact ((a3 r ((sortDesc_perm _).mem_iff.2 hr) (wf_split _ r hr)).trans b2) hnn
+    exact ((a3 r ((sortDesc_perm _).mem_iff.2 hr)).trans b2) hnn
 
 /-- `RandomImproveMultiAsset.select` returns a covering sub-multiset of the pool and the exact change, whatever
 the random choices -/
@@ -981,9 +887,11 @@ theorem riSelect_ok {nn : Prop} {pool : List UTxO} (hp : PoolN nn pool) (hn : (p
               obtain ⟨hinv2, _⟩ := riBase_ok (hp.mono hsubp) hnd.2.1 0 _ (wf_topUp env _) _ _ s2 hb2
               have hnd2 := hinv2.nodup
               rw [List.map_append, List.nodup_append] at hnd2
-              exact good_topup hinv hcov hp ht hnd2.1 (fun u hu => hinv2.sub u (List.mem_append_left _ hu))
-          · cases h; exact good_plain hinv hcov hp ht
-      · cases h; exact good_plain hinv hcov hp ht
+              have hsub2 : ∀ u ∈ s2.sel, u ∈ s.rem := fun u hu => hinv2.sub u (List.mem_append_left _ hu)
+              exact good_topup hinv hcov (fun u hu => (hp u hu).1) ht hnd2.1 hsub2
+                (fun hnn => nonNegSum_of_nonneg (fun u hu => (hp u (hsubp u (hsub2 u hu))).2 hnn))
+          · cases h; exact good_plain hinv hcov (fun u hu => (hp u hu).1) ht
+      · cases h; exact good_plain hinv hcov (fun u hu => (hp u hu).1) ht
 
 /-! ### termination: the recursion budgets of the model are never exhausted -/
 
